@@ -161,8 +161,12 @@ def cases(tier, seed):
         out.append((f"all-k:{tree_name(t)}", case_diag, dict(tree=t, ks=list(range(-(n - 1), n)), algs=["exact", "auto", "omitted"])))
     # seeded random square trees of depth <= 3 (8 fixed samples, selected by VERIF_SEED mod 8): every offset, exact / automatic / omitted algorithm
     from .common import random_trees
+    seen_r = set()
     for t in random_trees(3000 + seed % 8, 20 if tier == "quick" else 600, square=True):
         n = tree_shape(t)[0]
+        if tree_name(t) in seen_r:
+            continue
+        seen_r.add(tree_name(t))
         out.append((f"r:{tree_name(t)}", case_diag, dict(tree=t, ks=list(range(-(n - 1), n)), algs=["exact", "omitted"])))
     # sizes around the probing block size (rule-less operators so that exact_diag runs); banded symbolic payload
     big = [(101, [0, 1, -1, 99, -99, 100, -100]), (205, [0, 1, -1, 100, -100, 204, -204, 105]), (100, [0, 1, -1, 99, -99]), (200, [0, -1, 100])]
@@ -178,7 +182,8 @@ def cases(tier, seed):
                 dict(tree=["sum", G(["tridiag", 130, F8]), ["scalar", 130, F8]], ks=[0, 1], algs=["exact"]), dict(validate=False)))
     for n in (101, 562, 563, 600, 1000, 4096, 100000, 300000):
         out.append((f"auto-selection:n{n}", case_auto_selection, dict(n=n)))
-    out.append(("big:generic(tridiag200)[k=-1]", case_diag, dict(tree=G(["tridiag", 200, F8]), ks=[-1], algs=["exact"]), dict(validate=False)))
+    if tier == "quick":
+        out.append(("big:generic(tridiag200)[k=-1]", case_diag, dict(tree=G(["tridiag", 200, F8]), ks=[-1], algs=["exact"]), dict(validate=False)))
     out.append(("big:dense210", case_diag, dict(tree=["diag", 210, F8], ks=[0, 3], algs=["auto"]), dict(validate=False)))
     return out
 
